@@ -311,6 +311,23 @@ def _cli(res):
                                       % (t, pr.returncode), c)
                     else:
                         n_ok += 1
+        # empty input gives no output, also through the command line: empty file, file without any dump line
+        for name, text in (('empty.txt', ''), ('nolines.txt', '# only a comment\n\nnot a dump line\n'), ('blank.txt', '\n\n')):
+            p = os.path.join(d, name)
+            with open(p, 'w') as f:
+                f.write(text)
+            for t in ('mex', 'nimitz'):
+                env = dict(os.environ, PYTHONPATH=core.MODULES, PYTHONDONTWRITEBYTECODE='1')
+                pr = subprocess.run([core.PY, '-m', 'io_drawer.dump', '-t', t, p], capture_output=True, text=True, env=env, timeout=60)
+                pr2 = subprocess.run([core.PY, os.path.join(core.MODULES, 'io_drawer', 'dump.py'), '-t', t, p], capture_output=True, text=True,
+                                     env=env, timeout=60)
+                c = {'cli': t, 'file': name}
+                res.case(nontrivial_key=json.dumps(c), outcome='cli-empty:%d' % pr.returncode)
+                if pr.returncode != 0 or pr.stdout != '' or pr2.stdout != '' or pr2.returncode != 0:
+                    res.violation('C17:cli-empty', 'dump tool on %s (no data bytes) printed %r (rc=%d); empty input must give no output'
+                                  % (name, (pr.stdout or pr2.stdout)[:40], pr.returncode), c)
+                else:
+                    n_ok += 1
     finally:
         shutil.rmtree(d, ignore_errors=True)
     res.extra['traces_validated_against_impl'] = n_ok
